@@ -162,7 +162,7 @@ func checkPerIteration(c *Ctx, rule string, fn *ssa.Function, over, callee strin
 				continue
 			}
 			match := l.elemTypeName() == over || l.Over == over
-			if !match && overLocal && (strings.HasPrefix(l.Over, "var:") || strings.HasPrefix(l.Over, "param:") || strings.HasPrefix(l.Over, "call:")) {
+			if !match && overLocal && (strings.HasPrefix(l.Over, "var:") || strings.HasPrefix(l.Over, "param:") || strings.HasPrefix(l.Over, "call:") || strings.HasPrefix(l.Over, "field:")) {
 				// innermost loop containing the call
 				match = true
 				for _, l2 := range loops {
